@@ -59,7 +59,7 @@ func TestC05(t *testing.T) {
 
 var c18Cfg = SGenCfg{PingsPct: 25, RFs: allRF, MinOps: 5, MaxOps: 30, FaultPct: 35, SlowFaults: false, AllowDup: true, RestFail: true,
 	W: map[string]int{"write": 18, "sync": 3, "read": 10, "readd": 10, "add": 14, "promote": 8, "remove": 10,
-		"pingfail": 3, "nodedrop": 3, "snapshot": 6, "setmode": 8, "boot": 4, "reconnect": 6}}
+		"pingfail": 3, "nodedrop": 3, "snapshot": 6, "setmode": 6, "setmodeseq": 5, "boot": 4, "reconnect": 6}}
 
 func TestC18(t *testing.T) {
 	runStackProperty(t, "C18", "TestC18", func(rt *rapid.T) SProgram { return GenSProgram(rt, c18Cfg) },
@@ -100,4 +100,15 @@ var c16CtlCfg = SGenCfg{RFs: []int{1, 2, 3}, MinOps: 3, MaxOps: 16, FaultPct: 0,
 func TestC16Controller(t *testing.T) {
 	runStackProperty(t, "C16", "TestC16Controller", func(rt *rapid.T) SProgram { return GenSProgram(rt, c16CtlCfg) },
 		func(p SProgram, x *SExec) bool { return x.Labels["ctlresize:grow"] > 0 && x.Labels["write:acked"] > 0 })
+}
+
+// ---- C10 (promotion clause) ------------------------------------------------------
+
+var c10StackCfg = SGenCfg{RFs: []int{2, 3, 3}, MinOps: 4, MaxOps: 18, FaultPct: 30, Blocks: 8,
+	W: map[string]int{"write": 50, "readd": 20, "promote": 6, "remove": 6, "nodedrop": 4, "read": 4, "sync": 2}}
+
+// TestC10Promotion — a promoted replica reports the source's count; all RW replicas agree.
+func TestC10Promotion(t *testing.T) {
+	runStackProperty(t, "C10", "TestC10Promotion", func(rt *rapid.T) SProgram { return GenSProgram(rt, c10StackCfg) },
+		func(p SProgram, x *SExec) bool { return x.Labels["promote:ok"] > 0 && x.Labels["write:acked"] > 0 })
 }
